@@ -135,7 +135,13 @@ func NewDischarger(cacheDir string, useCache bool, timeout int) *Discharger {
 	return &Discharger{tmp: tmp, cacheDir: cacheDir, useCache: useCache, timeout: timeout, stats: map[string]int{}}
 }
 
-func (d *Discharger) Close() { os.RemoveAll(d.tmp) }
+func (d *Discharger) Close() {
+	if os.Getenv("GOVC_KEEP") == "" {
+		os.RemoveAll(d.tmp)
+	} else {
+		fmt.Fprintln(os.Stderr, "queries kept in", d.tmp)
+	}
+}
 
 func runSolver(ctx context.Context, s solverSpec, file string, timeout int) (string, string, float64) {
 	t0 := time.Now()
@@ -149,7 +155,15 @@ func runSolver(ctx context.Context, s solverSpec, file string, timeout int) (str
 	cmd.Run()
 	el := time.Since(t0).Seconds()
 	txt := out.String()
-	first := strings.TrimSpace(strings.SplitN(txt, "\n", 2)[0])
+	first := ""
+	for _, l := range strings.Split(txt, "\n") {
+		l = strings.TrimSpace(l)
+		if l == "" || strings.HasPrefix(l, "WARNING") {
+			continue
+		}
+		first = l
+		break
+	}
 	switch first {
 	case "unsat", "sat", "unknown":
 		return first, txt, el
@@ -184,12 +198,16 @@ func (d *Discharger) Discharge(w *World, o *Obligation) {
 	d.mu.Unlock()
 	file := filepath.Join(d.tmp, uniq+".smt2")
 	os.WriteFile(file, []byte(qtext), 0o644)
-	defer os.Remove(file)
+	if os.Getenv("GOVC_KEEP") == "" {
+		defer os.Remove(file)
+	}
 	ufile := filepath.Join(d.tmp, uniq+".uf.smt2")
 	hasStr := strings.Contains(qtext, "String") || strings.Contains(qtext, "str.")
 	if hasStr {
 		os.WriteFile(ufile, []byte(toUF(qtext)), 0o644)
-		defer os.Remove(ufile)
+		if os.Getenv("GOVC_KEEP") == "" {
+			defer os.Remove(ufile)
+		}
 	}
 
 	record := func(r solveResult) {
@@ -270,19 +288,33 @@ func (d *Discharger) Discharge(w *World, o *Obligation) {
 		return
 	}
 	if sat == nil {
-		var stage2 []variant
-		for _, s := range solvers {
-			stage2 = append(stage2, variant{s, false, d.timeout})
-			if hasStr {
-				stage2 = append(stage2, variant{s, true, d.timeout})
+		// later stages: pairs of back ends in order of past success, so that a hard query gets most of a core
+		pairs := [][]variant{
+			{{solvers[0], true, d.timeout}, {solvers[2], false, d.timeout}},
+			{{solvers[1], true, d.timeout}, {solvers[0], false, d.timeout}},
+			{{solvers[2], true, d.timeout}, {solvers[1], false, d.timeout}},
+		}
+		for _, pr := range pairs {
+			var vs []variant
+			for _, v := range pr {
+				if v.uf && !hasStr {
+					continue
+				}
+				vs = append(vs, v)
+			}
+			if len(vs) == 0 {
+				continue
+			}
+			var e2 []string
+			done, sat, e2 = runStage(vs)
+			if done {
+				return
+			}
+			errs = append(errs, e2...)
+			if sat != nil {
+				break
 			}
 		}
-		var e2 []string
-		done, sat, e2 = runStage(stage2)
-		if done {
-			return
-		}
-		errs = append(errs, e2...)
 	}
 	if sat != nil && o.Kind == "vacuity" {
 		o.Status = "failed"
